@@ -825,7 +825,7 @@ pub fn run(a: &Args) -> i32 {
             },
         }
     } else {
-        let (n_gen, n_fail, n_paths) = if ctx.rep.thorough() { (900, 440, 6000) } else { (96, 44, 400) };
+        let (n_gen, n_fail, n_paths) = if ctx.rep.thorough() { (1500, 660, 8000) } else { (200, 88, 600) };
         for i in 0..n_gen {
             let mut rng = case_rng(a.seed, "generate", i);
             let case = gen_case(&mut rng, i);
@@ -838,7 +838,7 @@ pub fn run(a: &Args) -> i32 {
         }
         // names of the shape `..ext` (once mis-placed by `Path::with_extension`) and other odd names, every placement
         let odd = ["..graphql", "..gql", "..q", "...graphql", "..", "...x", "q.", ".graphql", "a.b.graphql", "noext"];
-        let n_odd = if ctx.rep.thorough() { 60 } else { 12 };
+        let n_odd = if ctx.rep.thorough() { 100 } else { 20 };
         for i in 0..n_odd {
             let mut rng = case_rng(a.seed, "dotdot-name", i);
             let mut case = gen_case(&mut rng, i);
